@@ -174,156 +174,150 @@ packet Detail {
     string RuleName `" ++ [35268; 21017; 21517; 31216]%N ++ runes_of_ascii "`,
     u16 Code `" ++ [21407; 22240; 20195; 30721]%N ++ runes_of_ascii "`,
 }")).
-Eval vm_compute in ("<<<M1699>>>" ++ check (runes_of_ascii "// a // b
-packet stringy {
-    string zchar,
-    repeat T,
-    match u as charz {
-        007 : float,
-        ""\" ++ [233]%N ++ runes_of_ascii """ : Logon,
-        ""a	b"" : pack,
+Eval vm_compute in ("<<<M1766>>>" ++ check (runes_of_ascii "root packet metadata {
+    @lengthOf(options1)
+    int32 zchar @calculatedFrom(""// no comment"") `
+        `,
+    repeat calculatedFrom `it's`,//
+    match BodyLength as lengthOf {
+        3 : leftPad,
     },
-    match uint8x as roots {
-        1 : len,
+    repeat u128,
+    char[10] chars,// @lengthOf(
+    falsey @calculatedFrom(""x y"") `{ , }`,
+    @tag(42)
+    float64 i64_,
+    u8x @calculatedFrom(""{,}"") `two words`,
+    @lengthOf(T)
+    char[255] pack `it's`,
+    match MetaDataX as i64_ {
+        //
+        """ ++ [28040; 24687]%N ++ runes_of_ascii """ : Header,
+        0 : x_y_z,
+        3 : int,
+        ""abc"" : u8x,
     },
 }
 
-packet zchar {
-    roots options1 `// not a comment`,
-    int64 As,
-    i16 float @lengthOf(falsey) `a\`,
-    int64 msg_type `tab	here`,
-    @tag(0)
-    repeat uint8x,
-    @lengthOf(x)
-    repeat metadata,
-    zchar[0] int,
-    uint64 zchar,
-    zchar[7] msg_type,
-    @calculatedFrom(""" ++ [28040; 24687]%N ++ runes_of_ascii """)
-    crc,
-}
-
-root packet zchar {
-    repeat leftPad,
-}
-
-packet A {
-    @lengthOf(string_)
-    x @lengthOf(options1) `two words`,
-    string len,
-}
-
-packet falsey {
-    i64_ @calculatedFrom(""{,}""),
-    repeat string chars,
-    zchar[7] calculatedFrom,
-    Header {
-        char u `two words`,
-        repeat char[] tag `say ""hi""`,
-        Z9_ @lengthOf(T) `line1
-        line2`,
+packet i64_ {
+    @rightPad()
+    /// triple
+    pack {
+        match MetaDataX as trueish {
+            1 : len,
+            00 : falsey,
+            """" : x,
+        },
     },
-    msg_type @calculatedFrom(""// no comment""),
-    @rightPad('\x00')
-    @lengthOf(asx)
-    falsey,
-}// packet A { u8 x, }")).
-Eval vm_compute in ("<<<M1331>>>" ++ check (runes_of_ascii "  options { 
-FixedStringPadFromLeft 
-=	true;
-
-FixedStringPadChar =
-    '0' ;
-} packet
-Leg{	InPrice0 { 
-repeat string clOrdID ,
-
-    int16 msgKind
-, 
-zchar[
-
-    5  ]	Px
-
-    ,
-} 
-,
-i16  f1 ,
-repeat 
-f64 Side2
-
-    , string 
-Acct	,
-} 
-packet Cancel { zchar[ 4
-
-    ]clOrdID ,	string
-	seqNo  ,
-
-    Leg,	@leftPad
-    ('0' ) char[ 11  ] OrderId 
-,	}
-    packet Quote  {
-    repeat
-	char[
-
-4]
-	sym 
-,
-
-    f64
-	OrderId  ,
-    repeat
-Leg ,repeat
-i64 f1 , int16 Note ,  zchar[3
-	]
-	count ,
-	}root	packet Ack
-{ @leftPad	(
-' ')	char[
-
-    10 ] 
-sym
-	, InPx60	{Cancel
-
-,
-
-repeat
-char[  1
-]
-
-    f1 , string Tail,
-    repeat
-
-InNote55
-    {  int8
-	count, f64	f1,repeat  Cancel
-    ,
-} ,	char[] 
-tag7
-
-,	repeat
-
-    string
-msgKind ,
+    @tag(1)
+    char[] int @lengthOf(metadata),
+    a1 @lengthOf(calculatedFrom),
+    @tag(7)
+    tag @lengthOf(u),
+    BodyLength @calculatedFrom(""it's"") `say ""hi""`,
+    string msg_type,
 }
-, u8
-lastPx
-	,
-match 
-lastPx as Body
+
+MetaData Logon {
+    BodyLength _x `it's`,
+    int32 body,
+}
+
+root packet body {
+}")).
+Eval vm_compute in ("<<<M1368>>>" ++ check (runes_of_ascii "// top
+options
+    // c0
+{ // c1
+LittleEndian =
+    // c3
+true
+    // c4
+; // c5a
+  // c5b
+} // c6
+packet // c7a
+  // c7b
+Logon // c8a
+  // c8b
+{ u8
+    // c10
+x // c11a
+  // c11b
+, // c12
+} // c13a
+  // c13b
+packet // c14a
+  // c14b
+Logout // c15
 {
-152
-
-:	Quote ,173 : Cancel ,
-
-4
-	:
-Leg
-, }
-
-    ,	u16 Ref
-@calculatedFrom( ""CRC32"")	, } ")).
+    // c16
+u16
+    // c17
+reason
+    // c18
+, // c19a
+  // c19b
+}
+    // c20
+root packet Frame { // c24
+u16 // c25a
+  // c25b
+Kind // c26
+, // c27a
+  // c27b
+u16
+    // c28
+Kind2 // c29a
+  // c29b
+, match Kind
+    // c32
+as // c33
+Body // c34
+{
+    // c35
+1 : // c37
+Logon // c38a
+  // c38b
+,
+    // c39
+[ // c40
+2 , // c42
+3
+    // c43
+, // c44
+4 ] :
+    // c47
+Logout
+    // c48
+, // c49
+100
+    // c50
+:
+    // c51
+Logon // c52a
+  // c52b
+,
+    // c53
+} , match Kind2 // c57a
+  // c57b
+as
+    // c58
+Trailer // c59
+{ // c60
+0 // c61a
+  // c61b
+: // c62
+Logout // c63a
+  // c63b
+,
+    // c64
+} // c65a
+  // c65b
+,
+    // c66
+} // c67
+")).
 Eval vm_compute in ("<<<M1377>>>" ++ check (runes_of_ascii "// top
 options
     // c0
@@ -624,34 +618,34 @@ true
 7 ; // packet A { u8 x, }
 len=	""" ++ [128512]%N ++ runes_of_ascii """
     }")).
-Eval vm_compute in ("<<<M294>>>" ++ check (runes_of_ascii "options { rootA = 4294967296 ; falsey = ""a\""b""
-;
-As =
-// @lengthOf(
-/// triple
-""""
-;packetx
-    = ""packet"" i8i8 =true ;
-} // `tick` ""quote"" 'q'
-packet x  { repeat zchar
-rootA , char[]
-    pack  `// not a comment`
-,@tag( 00 )
-@tag( 0123456789)
-u @calculatedFrom( ""packet"" )`u8 x,` , Header{
-    zchar[ 00
-    ] body
-,
-    a1	@calculatedFrom( // " ++ [128512]%N ++ runes_of_ascii " emoji
-""it's"" )
-`" ++ [233]%N ++ runes_of_ascii "`, }, } // " ++ [27880; 37322]%N ++ runes_of_ascii "
-MetaData
-    A // a // b
-{zchar /// triple
-matchKey
-    `` , int64 metadata ,char[] _x //	t
-, }
-")).
+Eval vm_compute in ("<<<M1381>>>" ++ check (runes_of_ascii "packet tag {
+    string matchKey `line1
+    line2`,
+    @tag(0)
+    @calculatedFrom(""1"")
+    @calculatedFrom(""a\""b"")
+    float64 matchKey,
+}
+
+options {
+    crc = true
+    msg_type = true;
+}
+
+packet o {
+    match roots as calculatedFrom {
+        ""// no comment"" : msg_type,
+        ""{,}"" : u128,
+        [65535, 0123456789] : body,
+        // " ++ [128512]%N ++ runes_of_ascii " emoji
+    },
+    @rightPad(' ')
+    repeat string_ i64_,
+    @lengthOf(lengthOf)
+    @tag(255)
+    @tag(00)
+    char[] stringy,
+}")).
 Eval vm_compute in ("<<<M68>>>" ++ check (runes_of_ascii "
 packet
     Header {  match roots  as packetx
@@ -744,50 +738,37 @@ i32
 tag ,  }
 
 ")).
-Eval vm_compute in ("<<<M1785>>>" ++ check (runes_of_ascii "packet repeatCount {
-    @calculatedFrom(""abc"")
-    zchar[0] MetaDataX `
-        `,
-    string_ @calculatedFrom(""1""),
-    match string_ as msg_type {
-        [
-            65535, 7,
-            255, ""a	b""
-        ] : matchKey,
-        10 : options1,
-        3 : Logon,
-    },
-    // " ++ [27880; 37322]%N ++ runes_of_ascii "
-    packetx `a\`,
-}")).
-Eval vm_compute in ("<<<M1495>>>" ++ check (runes_of_ascii "options
+Eval vm_compute in ("<<<M57>>>" ++ check (runes_of_ascii "packet	tag { }
+packet falsey
+    { string charz @lengthOf(
+    zchar ) ,
+string // trailing space 
+u @calculatedFrom( """ ++ [233]%N ++ runes_of_ascii "t" ++ [233]%N ++ runes_of_ascii """	) `// not a comment`
+, @leftPad( '0' )
+char[] leftPad @calculatedFrom(
+    ""a	b"")`// not a comment` , @calculatedFrom(
+    ""`tick`"" )
+    @lengthOf(roots
+) repeat MetaDataX
+, }
 
-    {pack  // `tick` ""quote"" 'q'
-=
-    0123456789
-
-} 
-packet 
-metadata 
-{ @leftPad
-    (	' ' ) stringy 
-@lengthOf( _x
-
-    )
-, 
-repeat
-u8 int
-	`{ , }` ,@leftPad  //	t
-  ( '0'
-
-    )repeat 
-char  msg_type `it's` 
-,  }
-MetaData x_y_z
-{  // trailing space 
-
-	}
 ")).
+Eval vm_compute in ("<<<M130>>>" ++ check (runes_of_ascii "packet zchar { @lengthOf( a1
+// " ++ [128512]%N ++ runes_of_ascii " emoji
+//	t
+) i64_ @lengthOf( Header )
+`" ++ [28040; 24687; 31867; 22411]%N ++ runes_of_ascii "`, charz`" ++ [233]%N ++ runes_of_ascii "` , char[007] i64_ , tag  { u16  matchKey // " ++ [27880; 37322]%N ++ runes_of_ascii "
+,match Pad as lengthOf { [""CRC32"" ,	""abc""
+] : Packet
+,	}
+, }
+    , } MetaData body {char[
+    10 ]u128
+    `doc`
+    ,
+/// triple
+//x
+} //x")).
 Eval vm_compute in ("<<<M267>>>" ++ check (runes_of_ascii "packet trueish{
 @leftPad (// @lengthOf(
 '0'  ) @tag(  3/// triple
